@@ -18,6 +18,8 @@ import (
 	_ "github.com/pion/interceptor/verifh/c02"
 	_ "github.com/pion/interceptor/verifh/c03"
 	_ "github.com/pion/interceptor/verifh/c04"
+	_ "github.com/pion/interceptor/verifh/c06"
+	_ "github.com/pion/interceptor/verifh/c07"
 	_ "github.com/pion/interceptor/verifh/c08"
 	_ "github.com/pion/interceptor/verifh/c09"
 	_ "github.com/pion/interceptor/verifh/c10"
@@ -29,6 +31,7 @@ import (
 	_ "github.com/pion/interceptor/verifh/c16"
 	_ "github.com/pion/interceptor/verifh/c17"
 	_ "github.com/pion/interceptor/verifh/c18"
+	_ "github.com/pion/interceptor/verifh/c19"
 	_ "github.com/pion/interceptor/verifh/c20"
 	"github.com/pion/interceptor/verifh/dbg"
 	"github.com/pion/interceptor/verifh/hk"
